@@ -1717,8 +1717,10 @@ class StmtLowering(object):
                         # (slots then number the threads that really started, as the replay does)
                         for w in range(U.W):
                             upd["W.state[{0}]".format(w)] = ite(eq(idx, w), 0, env.g("W.state[{0}]".format(w)))
+                        upd["start_failures_left"] = sub(env.g("start_failures_left"), 1)
 
-                    fail = and_(env.g("allow_start_failure"), eq(env.choice, 1))
+                    # at most `start_failures_left` attempts fail (transient resource exhaustion)
+                    fail = and_(gt(env.g("start_failures_left"), 0), eq(env.choice, 1))
                     return [PrimOutcome(not_(fail), eff, None, NONE), PrimOutcome(fail, unreserve, "RuntimeError", U.EXC_RT)]
 
                 return finish("Thread.start", outcomes, "none", raises=("RuntimeError",))
@@ -1918,7 +1920,8 @@ def build_system(source, filename, universe, client_programs, allow_start_failur
         init[name] = 0
     for name in ("ran_while_stopped", "stop_returned", "pool_serving", "shutdown_request", "socket_closed", "bad_task", "overflow", "cb_wrong_extra", "W.overflow", "worker_died"):
         init[name] = False
-    init["allow_start_failure"] = bool(allow_start_failure)
+    # True: any attempt may fail (budget 15 > any window depth's number of attempts); int: that many failures at most
+    init["start_failures_left"] = 15 if allow_start_failure is True else int(allow_start_failure or 0)
     for i in range(U.M):
         init["exec_count[{0}]".format(i)] = 0
         init["start_order[{0}]".format(i)] = -1
